@@ -4,10 +4,23 @@ open Proto C12
 def attrsOf (n r c : Tok) (ch : Tok := Tok.none) : Option Attrs := do
   pure { name := ← n.optStr?, resid := ← r.optInt?, cg := ← c.optInt?, chain := ← ch.optStr? }
 
+def attrsOfList (t : Tok) : Option Attrs := do
+  match ← t.list? with
+  | [n, r, c] => attrsOf n r c
+  | [n, r, c, ch] => attrsOf n r c ch
+  | _ => none
+
 def nodeOf (t : Tok) : Option (Int × Attrs) := do
   match ← t.list? with
   | [k, n, r, c] => pure (← k.int?, ← attrsOf n r c)
   | [k, n, r, c, ch] => pure (← k.int?, ← attrsOf n r c ch)
+  | _ => none
+
+/-- entry of `add_nodes_from(..., **common)`: a bare key `[k]` or `[k n r c ch]` -/
+def nodeCOf (t : Tok) : Option (Int × Option Attrs) := do
+  match ← t.list? with
+  | [k] => pure (← k.int?, none)
+  | [k, n, r, c, ch] => pure (← k.int?, some (← attrsOf n r c ch))
   | _ => none
 
 def bnodeOf (t : Tok) : Option (String × Attrs) := do
@@ -16,9 +29,51 @@ def bnodeOf (t : Tok) : Option (String × Attrs) := do
   | [k, n, r, c, ch] => pure (← k.str?, ← attrsOf n r c ch)
   | _ => none
 
-def tmplAttrsOf (t : Tok) : Option Attrs := do
+def eattrsOf (o k : Tok) : Option EAttrs := do
+  pure { order := ← o.optInt?, kind := ← k.optStr? }
+
+/-- a template value: `-` = key absent, a plain int/str, `[ "e" ]` = explicit None,
+`[ "c" v ... ]` = Choice, `[ "n" v ]` = NotDefinedOrNot -/
+def predOf {α : Type} (val : Tok → Option (Option α)) (t : Tok) : Option (Option (Pred α)) :=
+  match t with
+  | Tok.none => some none
+  | Tok.list (Tok.str "e" :: []) => some (some (.eq none))
+  | Tok.list (Tok.str "c" :: vs) => do pure (some (.choice (← vs.mapM val)))
+  | Tok.list [Tok.str "n", v] => do pure (some (.notDefOrNot (← val v)))
+  | Tok.list _ => none
+  | v => do pure (some (.eq (← val v)))
+
+def tmplAttrsOf (t : Tok) : Option TAttrs := do
   match ← t.list? with
-  | [n, r, c, ch] => attrsOf n r c ch
+  | [n, r, c, ch] =>
+    pure { name := ← predOf Tok.optStr? n, resid := ← predOf Tok.optInt? r,
+           cg := ← predOf Tok.optInt? c, chain := ← predOf Tok.optStr? ch }
+  | _ => none
+
+def boolOf (t : Tok) : Option Bool := do pure ((← t.int?) != 0)
+
+def fmtArgOf (t : Tok) : Option FmtArg := do
+  (← t.list?).mapM (fun p => do
+    match ← p.list? with
+    | [n, k] => pure (← n.str?, ← k.int?)
+    | _ => none)
+
+def binterOf (l : List Tok) : Option BInter :=
+  match l with
+  | [ty, ats, pr, v] => do pure { ty := ← ty.str?, atoms := ← strs? ats, params := ← pr.str?, version := ← v.optInt? }
+  | [ty, ats, pr, v, e] => do
+      pure { ty := ← ty.str?, atoms := ← strs? ats, params := ← pr.str?, version := ← v.optInt?, edge := ← boolOf e }
+  | _ => none
+
+def bstepOf (t : Tok) : Option BStep := do
+  match ← t.list? with
+  | [Tok.str "atom", n, r, c, ch] => pure (.addAtom (← attrsOf n r c ch))
+  | [Tok.str "node", k, n, r, c, ch] => pure (.addNode (← k.str?) (← attrsOf n r c ch))
+  | [Tok.str "edge", u, v, o, k] => pure (.addEdge (← u.str?) (← v.str?) (← eattrsOf o k))
+  | Tok.str "inter" :: rest => pure (.addInter (← binterOf rest))
+  | Tok.str "raw" :: rest => pure (.rawInter (← binterOf rest))
+  | [Tok.str "mkedges", ty] => pure (.makeEdges (← ty.str?))
+  | [Tok.str "log", lvl, e] => pure (.log (← lvl.int?) (← e.str?))
   | _ => none
 
 def pairLe (a b : Int × Int) : Bool := a.1 < b.1 || (a.1 == b.1 && a.2 ≤ b.2)
@@ -27,20 +82,48 @@ def dedupAdj : List (Int × Int) → List (Int × Int)
   | a :: b :: rest => if a = b then dedupAdj (b :: rest) else a :: dedupAdj (b :: rest)
   | l => l
 
+def dumpFmtArg (fa : FmtArg) : String :=
+  encList ((fa.mergeSort (fun a b => a.1 ≤ b.1)).map fun (n, k) => encList [encStr n, encInt k])
+
+def dumpLogs (lg : Logs) : String :=
+  let flat := (flattenLogs lg).mergeSort (fun a b => a.1 < b.1 || (a.1 == b.1 && a.2.1 ≤ b.2.1))
+  encList (flat.map fun (l, e, args) => encList [encInt l, encStr e, encList (args.map dumpFmtArg)])
+
 def dumpMol (m : Mol) : String :=
   let nodes := m.nodes.map fun (k, a) => encList [encInt k, encOptStr a.name, encOptInt a.resid, encOptInt a.cg, encOptStr a.chain]
   let es := dedupAdj ((m.edges.map fun (u, v) => (min u v, max u v)).mergeSort pairLe)
-  let edges := es.map fun (u, v) => encList [encInt u, encInt v]
+  let edges := es.map fun (u, v) =>
+    let a := lookupE m.eattr u v
+    encList [encInt u, encInt v, encOptInt a.order, encOptStr a.kind]
   let its := m.inters.mergeSort (fun a b => a.1 ≤ b.1)
-  let inters := its.map fun (t, i) => encList [encStr t, encList (i.atoms.map encInt), encStr i.params, encInt i.version]
+  let inters := its.map fun (t, i) =>
+    encList [encStr t, encList (i.atoms.map encInt), encStr i.params, encOptInt i.version, encBool i.edge]
   let cites := (m.cites.mergeSort (fun a b => a ≤ b)).map encStr
-  encList [encList nodes, encList edges, encList inters, encList cites, encOptInt m.nrexcl]
+  encList [encList nodes, encList edges, encList inters, encList cites, encOptInt m.nrexcl, encOptStr m.ff, dumpLogs m.logs]
 
 def dumpPool (p : Pool) : String := encList (p.map dumpMol)
+
+def blockOf (nodes edges inters cites nrexcl : Tok) (ff : Tok := Tok.none) (logs : Tok := Tok.list []) : Option Block := do
+  let ns ← (← nodes.list?).mapM bnodeOf
+  let es ← (← edges.list?).mapM (fun e => do
+    match ← e.list? with
+    | [u, v] => pure ((← u.str?, ← v.str?), (none : Option EAttrs))
+    | [u, v, o, k] => pure ((← u.str?, ← v.str?), some (← eattrsOf o k))
+    | _ => none)
+  let is ← (← inters.list?).mapM (fun t => do binterOf (← t.list?))
+  let lg ← (← logs.list?).mapM (fun t => do
+    match ← t.list? with
+    | [l, e] => pure (← l.int?, ← e.str?)
+    | _ => none)
+  pure { nodes := ns, edges := es.map Prod.fst, inters := is, cites := ← strs? cites, nrexcl := ← nrexcl.optInt?,
+         eattr := es.foldl (fun t x => match x.2 with
+                                     | some a => upsertE t x.1.1 x.1.2 a
+                                     | none => t) [], ff := ← ff.optStr?, logs := lg }
 
 def opOf (toks : List Tok) : Option Op :=
   match toks with
   | [Tok.str "new", n] => do pure (.newMol (← n.optInt?))
+  | [Tok.str "new", n, ff] => do pure (.newMol (← n.optInt?) (← ff.optStr?))
   | [Tok.str "addnode", m, k, n, r, c] => do pure (.addNode (← m.nat?) (← k.int?) (← attrsOf n r c))
   | [Tok.str "addnode", m, k, n, r, c, ch] => do pure (.addNode (← m.nat?) (← k.int?) (← attrsOf n r c ch))
   | [Tok.str "rmmatch", m, ty, atoms, pr, v, aa] => do
@@ -48,15 +131,36 @@ def opOf (toks : List Tok) : Option Op :=
         | Tok.none => pure none
         | t => do pure (some (← (← t.list?).mapM tmplAttrsOf))
       pure (.removeMatching (← m.nat?) (← ty.str?)
-        { atoms := ← ints? atoms, params := ← pr.optStr?, version := ← v.optInt?, atomAttrs := aa' })
+        { atoms := ← ints? atoms, params := ← pr.optStr?, version := ← predOf Tok.optInt? v, atomAttrs := aa' })
   | [Tok.str "addnodes", m, l] => do pure (.addNodes (← m.nat?) (← (← l.list?).mapM nodeOf))
+  | [Tok.str "addnodesc", m, l, common] => do
+      pure (.addNodesC (← m.nat?) (← (← l.list?).mapM nodeCOf) (← attrsOfList common))
   | [Tok.str "rmnode", m, k] => do pure (.removeNode (← m.nat?) (← k.int?))
   | [Tok.str "rmnodes", m, ks] => do pure (.removeNodes (← m.nat?) (← ints? ks))
   | [Tok.str "addedge", m, u, v] => do pure (.addEdge (← m.nat?) (← u.int?) (← v.int?))
+  | [Tok.str "addedgea", m, u, v, o, k] => do pure (.addEdgeA (← m.nat?) (← u.int?) (← v.int?) (← eattrsOf o k))
+  | [Tok.str "addedges", m, l] => do
+      pure (.addEdgesA (← m.nat?) (← (← l.list?).mapM (fun e => do
+        match ← e.list? with
+        | [u, v, o, k] => pure (← u.int?, ← v.int?, ← eattrsOf o k)
+        | _ => none)))
+  | [Tok.str "rmedge", m, u, v] => do pure (.removeEdge (← m.nat?) (← u.int?) (← v.int?))
+  | [Tok.str "rmedges", m, l] => do
+      pure (.removeEdges (← m.nat?) (← (← l.list?).mapM (fun e => do
+        match ← ints? e with
+        | [u, v] => pure (u, v)
+        | _ => none)))
+  | [Tok.str "mkedges", m, ty] => do pure (.makeEdgesType (← m.nat?) (← ty.str?))
+  | [Tok.str "mkedgesall", m] => do pure (.makeEdgesAll (← m.nat?))
+  | [Tok.str "clear", m] => do pure (.clear (← m.nat?))
   | [Tok.str "addinter", m, ty, atoms, pr, v] => do
-      pure (.addInter (← m.nat?) (← ty.str?) (← ints? atoms) (← pr.str?) (← v.int?))
+      pure (.addInter (← m.nat?) (← ty.str?) (← ints? atoms) (← pr.str?) (← v.optInt?))
+  | [Tok.str "addinter", m, ty, atoms, pr, v, e] => do
+      pure (.addInter (← m.nat?) (← ty.str?) (← ints? atoms) (← pr.str?) (← v.optInt?) (← boolOf e))
   | [Tok.str "addorrep", m, ty, atoms, pr, v, cs] => do
-      pure (.addOrReplace (← m.nat?) (← ty.str?) (← ints? atoms) (← pr.str?) (← v.int?) (← strs? cs))
+      pure (.addOrReplace (← m.nat?) (← ty.str?) (← ints? atoms) (← pr.str?) (← v.optInt?) (← strs? cs))
+  | [Tok.str "addorrep", m, ty, atoms, pr, v, cs, e] => do
+      pure (.addOrReplace (← m.nat?) (← ty.str?) (← ints? atoms) (← pr.str?) (← v.optInt?) (← strs? cs) (← boolOf e))
   | [Tok.str "rminter", m, ty, atoms, v] => do
       pure (.removeInter (← m.nat?) (← ty.str?) (← ints? atoms) (← v.int?))
   | [Tok.str "prune", m, a, b] => do pure (.pruneEdges (← m.nat?) (← ints? a) (← ints? b))
@@ -67,26 +171,24 @@ def opOf (toks : List Tok) : Option Op :=
           | [x] => pure (some x)
           | _ => none
       pure (.pruneByName (← m.nat?) (← na.str?) nb')
+  | [Tok.str "addlog", m, lvl, e, args] => do
+      pure (.addLog (← m.nat?) (← lvl.int?) (← e.str?) (← (← args.list?).mapM fmtArgOf))
   | [Tok.str "copy", m] => do pure (.copy (← m.nat?))
   | [Tok.str "subgraph", m, ks] => do pure (.subgraph (← m.nat?) (← ints? ks))
   | [Tok.str "merge", i, j] => do pure (.merge (← i.nat?) (← j.nat?))
   | [Tok.str "fromblock", nodes, edges, inters, cites, nrexcl, ao, ro, co] => do
-      let ns ← (← nodes.list?).mapM bnodeOf
-      let es ← (← edges.list?).mapM (fun e => do
-        match ← strs? e with
-        | [u, v] => pure (u, v)
-        | _ => none)
-      let is ← (← inters.list?).mapM (fun t => do
-        match ← t.list? with
-        | [ty, ats, pr, v] => pure (← ty.str?, ← strs? ats, ← pr.str?, ← v.int?)
-        | _ => none)
-      pure (.fromBlock { nodes := ns, edges := es, inters := is, cites := ← strs? cites, nrexcl := ← nrexcl.optInt? }
-              (← ao.int?) (← ro.int?) (← co.int?))
+      pure (.fromBlock (← blockOf nodes edges inters cites nrexcl) (← ao.int?) (← ro.int?) (← co.int?))
+  | [Tok.str "fromblock", nodes, edges, inters, cites, nrexcl, ao, ro, co, ff, logs] => do
+      pure (.fromBlock (← blockOf nodes edges inters cites nrexcl ff logs) (← ao.int?) (← ro.int?) (← co.int?))
+  | [Tok.str "buildblock", cites, nrexcl, ff, steps, ao, ro, co] => do
+      pure (.buildBlock { cites := ← strs? cites, nrexcl := ← nrexcl.optInt?, ff := ← ff.optStr? }
+              (← (← steps.list?).mapM bstepOf) (← ao.int?) (← ro.int?) (← co.int?))
   | _ => none
 
 def sopOf (toks : List Tok) : Option SOp :=
   match toks with
   | [Tok.str "newsys"] => some .newSys
+  | [Tok.str "newsys", ff] => do pure (.newSys (← ff.optStr?))
   | [Tok.str "addmol", s, i] => do pure (.addMol (← s.nat?) (← i.nat?))
   | [Tok.str "copysys", s] => do pure (.copySys (← s.nat?))
   | [Tok.str "mergeall", s] => do pure (.mergeAll (← s.nat?))
@@ -94,17 +196,29 @@ def sopOf (toks : List Tok) : Option SOp :=
       pure (.mergeChains (← s.nat?) (← (← cs.list?).mapM Tok.optStr?) ((← a.int?) != 0))
   | _ => (opOf toks).map SOp.mol
 
-def dumpState (st : State) : String :=
-  dumpPool st.pool ++ " " ++ encList (st.systems.map fun l => encList (l.map encNat))
+/-- the driver keeps the dump string of every pool member and recomputes it only for members that
+changed (structural equality on `Mol`), which is what makes long histories affordable -/
+abbrev Cache := List (Mol × String)
 
-def handle (st : State) (toks : List Tok) : State × String :=
+def dumpPoolC (cache : Cache) (p : Pool) : Cache :=
+  (p.zipIdx).map fun (m, i) =>
+    match cache[i]? with
+    | some (m', s) => if m' == m then (m, s) else (m, dumpMol m)
+    | none => (m, dumpMol m)
+
+def dumpStateC (cache : Cache) (st : State) : String :=
+  encList (cache.map Prod.snd) ++ " " ++ encList (st.systems.map fun l => encList (l.map encNat)) ++ " " ++
+    encList (st.sysff.map encOptStr)
+
+def handle (sc : State × Cache) (toks : List Tok) : (State × Cache) × String :=
   match toks with
-  | [Tok.str "reset"] => ({}, "ok [ ]")
+  | [Tok.str "reset"] => (({}, []), "ok [ ]")
   | _ =>
     match sopOf toks with
-    | none => (st, "bad-op")
+    | none => (sc, "bad-op")
     | some op =>
-      let (st', o) := sstep st op
-      (st', o.str ++ " " ++ dumpState st')
+      let (st', o) := sstep sc.1 op
+      let cache := dumpPoolC sc.2 st'.pool
+      ((st', cache), o.str ++ " " ++ dumpStateC cache st')
 
-def main : IO Unit := runDriver handle ({} : State)
+def main : IO Unit := runDriver handle (({}, []) : State × Cache)
